@@ -77,6 +77,12 @@ func c02Callees(in ssa.Instruction, pkg *types.Package) []*ssa.Function {
 			add(f)
 		}
 	}
+	// a value of a package type converted to an interface: its methods become callable through the interface
+	if mi, ok := in.(*ssa.MakeInterface); ok {
+		for _, m := range c02MethodsOf(in.Parent().Prog, mi.X.Type(), pkg) {
+			add(m)
+		}
+	}
 	for _, op := range in.Operands(nil) {
 		if op == nil || *op == nil {
 			continue
@@ -127,9 +133,29 @@ func c02HandlesPipe(fn *ssa.Function) bool {
 func c02ProcCall(ci ssa.CallInstruction) bool {
 	cc := ci.Common()
 	if cc.IsInvoke() {
-		return false
+		// through an interface method of the processor signature (an unexported seam with its implementations in the package)
+		sig, _ := cc.Method.Type().(*types.Signature)
+		return sig != nil && cc.Method.Pkg() != nil && c02ProcSig(sig)
 	}
 	return c02ProcSig(cc.Signature())
+}
+
+// c02MethodsOf: the methods (with bodies) of the package-local named type t.
+func c02MethodsOf(prog *ssa.Program, t types.Type, pkg *types.Package) []*ssa.Function {
+	var out []*ssa.Function
+	n, ok := types.Unalias(deref(t)).(*types.Named)
+	if !ok || n.Obj().Pkg() != pkg {
+		return nil
+	}
+	for _, tt := range []types.Type{t, types.NewPointer(deref(t))} {
+		ms := prog.MethodSets.MethodSet(tt)
+		for i := 0; i < ms.Len(); i++ {
+			if f := prog.MethodValue(ms.At(i)); f != nil && len(f.Blocks) > 0 {
+				out = append(out, f)
+			}
+		}
+	}
+	return out
 }
 
 // c02ReadsGivenReader: fn reads (io.Reader.Read / io.ReadFull / ReadAtLeast)
